@@ -946,6 +946,16 @@ class GaussianConstr(object):
                 )
         self.constraint.update(constraint)
 
+    def _trainable_name(self, name):
+        """the free name that moves the constrained variable (itself, or the free name it is tied to)"""
+        if name in self.vm.trainable_vars:
+            return name
+        var = self.vm.variables.get(name, None)
+        for i in self.vm.trainable_vars:
+            if self.vm.variables[i] is var:
+                return i
+        return None
+
     def get_constrain_term(self):
         r"""
         constraint: Gauss(mean,sigma)
@@ -968,14 +978,16 @@ class GaussianConstr(object):
         """
         g_dict = {}
         for i in self.constraint:
-            if not i in self.vm.trainable_vars:
+            name = self._trainable_name(i)
+            if name is None:
                 continue
             pi = self.constraint[i]
             assert isinstance(pi, tuple) or isinstance(pi, list)
             assert len(pi) == 2
             mean, sigma = pi
             var = self.vm.variables[i]
-            g_dict[i] = (var - mean) / (sigma**2)  # 1st differentiation
+            # 1st differentiation
+            g_dict[name] = g_dict.get(name, 0.0) + (var - mean) / (sigma**2)
         grad = []
         for i in self.vm.trainable_vars:
             if i in g_dict:
@@ -988,14 +1000,15 @@ class GaussianConstr(object):
         """the constrained parameter's 2nd differentiation"""
         h_dict = {}
         for i in self.constraint:
-            if not i in self.vm.trainable_vars:
+            name = self._trainable_name(i)
+            if name is None:
                 continue
             pi = self.constraint[i]
             assert isinstance(pi, tuple) or isinstance(pi, list)
             assert len(pi) == 2
             mean, sigma = pi
-            var = self.vm.variables[i]
-            h_dict[i] = 1 / (sigma**2)  # 2nd differentiation
+            # 2nd differentiation
+            h_dict[name] = h_dict.get(name, 0.0) + 1 / (sigma**2)
         nv = len(self.vm.trainable_vars)
         hessian = np.zeros([nv, nv])
         for v, i in zip(self.vm.trainable_vars, range(nv)):
